@@ -174,9 +174,93 @@ func c13Exec(op string) string {
 		}
 		return "ok " + strings.Join(parts, " ") + " | " + note
 	case "implonly":
+		if c.pos < len(c.toks) && c.toks[c.pos] == "bulkerr" {
+			return c13BulkErr(c)
+		}
 		return c13Stream(c)
 	}
 	return "bad-op"
+}
+
+// implonly bulkerr kind raw cont pos docs sched
+// A stream of well-formed documents with ONE malformed document (an element closed by another name /
+// an object with a missing value) at position pos.  The error handler is a handler too: called once,
+// with the malformed document (Raw form); when it returns false the bulk function stops there and
+// returns the error, when it returns true reading goes on with the next document.  The map handler
+// sees exactly the well-formed documents before (stop) or around (continue) the bad one, in order.
+func c13BulkErr(c *cur) string {
+	c.pos++
+	kind := c.toks[c.pos]
+	c.pos++
+	raw := c.boolean()
+	cont := c.boolean()
+	pos := c.nat()
+	docs := c.strList()
+	s := c.sched()
+	if c.err != nil {
+		return "bad-op " + c.err.Error()
+	}
+	if pos > len(docs) {
+		pos = len(docs)
+	}
+	bad := "<zbad>x</zworse>"
+	if kind == "json" {
+		bad = `{"zbad":}`
+	}
+	var want []string
+	for _, d := range docs {
+		var m map[string]interface{}
+		var err error
+		if kind == "xml" {
+			m, err = mxj.NewMapXml([]byte(d))
+		} else {
+			m, err = mxj.NewMapJson([]byte(d))
+		}
+		if err != nil {
+			return "bad-gen direct decoding failed: " + oneLine(err.Error())
+		}
+		want = append(want, enc(m))
+	}
+	_ = s
+	var notes []string
+	for pass := 0; pass < 2 && len(notes) == 0; pass++ {
+		stream := strings.Join(docs[:pos], " ") + " " + bad + "\n" + strings.Join(docs[pos:], "")
+		var rdr io.Reader = strings.NewReader(stream)
+		if pass == 1 {
+			rdr = &chunkReader{data: []byte(stream), sizes: []int{1, 3, 2, 7, 1, 64}}
+		}
+		var seen, errRaw []string
+		nerr := 0
+		h := func(m mxj.Map) bool { seen = append(seen, enc(map[string]interface{}(m))); return true }
+		var herr error
+		switch {
+		case kind == "xml" && raw:
+			herr = mxj.HandleXmlReaderRaw(rdr, func(m mxj.Map, _ []byte) bool { return h(m) }, func(_ error, rb []byte) bool { nerr++; errRaw = append(errRaw, string(rb)); return cont })
+		case kind == "xml":
+			herr = mxj.HandleXmlReader(rdr, h, func(error) bool { nerr++; return cont })
+		case raw:
+			herr = mxj.HandleJsonReaderRaw(rdr, func(m mxj.Map, _ []byte) bool { return h(m) }, func(_ error, rb []byte) bool { nerr++; errRaw = append(errRaw, string(rb)); return cont })
+		default:
+			herr = mxj.HandleJsonReader(rdr, h, func(error) bool { nerr++; return cont })
+		}
+		exp := want
+		if !cont {
+			exp = want[:pos]
+		}
+		switch {
+		case nerr != 1:
+			notes = append(notes, fmt.Sprintf("BULKERR the error handler was called %d times for one malformed document", nerr))
+		case cont && herr != nil:
+			notes = append(notes, "BULKERR the error handler asked to continue but the bulk function returned an error")
+		case !cont && herr == nil:
+			notes = append(notes, "BULKERR the error handler returned false but the bulk function reported success")
+		case strings.Join(seen, "\x00") != strings.Join(exp, "\x00"):
+			notes = append(notes, fmt.Sprintf("BULKERR the map handler saw %d documents, expected %d (malformed document at %d, continue=%v)", len(seen), len(exp), pos, cont))
+		case raw && (len(errRaw) != 1 || !strings.Contains(errRaw[0], bad)):
+			notes = append(notes, "BULKERR the raw bytes handed to the error handler do not contain the malformed document")
+		}
+	}
+	return "ok | " + strings.Join(notes, "; ")
 }
 
 // implonly stream kind raw docs seps sched stopAfter
@@ -468,6 +552,13 @@ func c13Describe(op string) string {
 		}
 		return fmt.Sprintf("%s x%d data=%q schedule: %d reads (%d zero-length, %d byte+EOF, %d (0,EOF), %d errors)", name, c.nat(), data, len(s), kinds['0'], kinds['E'], kinds['Z'], kinds['F'])
 	case "implonly":
+		if c.toks[c.pos] == "bulkerr" {
+			c.pos++
+			kind := c.toks[c.pos]
+			c.pos++
+			raw, cont, pos := c.boolean(), c.boolean(), c.nat()
+			return fmt.Sprintf("bulk handler kind=%s raw=%v errorHandlerContinues=%v malformed document at position %d among docs=%q", kind, raw, cont, pos, c.strList())
+		}
 		c.pos++
 		kind := c.toks[c.pos]
 		c.pos++
@@ -502,6 +593,9 @@ func c13Judge(op, impl, model string) Verdict {
 		v.CorrOK = true
 		v.Nontrivial = true
 		c, _ := newCur(op)
+		if c.toks[c.pos] == "bulkerr" {
+			v.Tags = append(v.Tags, "bulkerr")
+		}
 		c.pos++
 		v.Tags = append(v.Tags, "stream:"+c.toks[c.pos])
 	default:
@@ -624,6 +718,10 @@ func c13Gen(r *Rng, n int) []string {
 			}
 			stream += seps[nd]
 			s := r.mkSched(stream, r.Pick2(0, 15), r.P(40))
+			if kind != "seq" && r.P(12) {
+				ops = append(ops, fmt.Sprintf("implonly bulkerr %s %d %d %d %s %s", kind, b2i(r.Bool()), b2i(r.Bool()), r.Intn(nd+1), encStrList(docs), encSched(s[:0])))
+				continue
+			}
 			stop := 0
 			if r.P(30) {
 				stop = 1 + r.Intn(nd)
